@@ -424,6 +424,8 @@ def run(prog, res, tier):
     nn = Nullness(prog)
     r6_nullable_elements(prog, res, reachable, nn)
     r6_lookup_results(prog, res, reachable, nn)
+    nt = memsafe.run_strncpy_terminated(prog, res, CFG, reachable)
+    res.floor("E2t.strncpy_terminated", "strncpy calls into fixed arrays with a constant size", nt, 20)
     # L* (identifier length for which every assumption-discharged write is safe) must not shrink
     floor = CFG.get("lstar_floor")
     if floor is not None:
